@@ -32,6 +32,7 @@ pub struct Case {
     pub fill_a: u64,
     pub fill_b: u64,
     pub misalign: usize,
+    pub slack: usize,
     pub sched_seed: u64,
 }
 
@@ -62,7 +63,7 @@ impl Case {
             Subject::Prep(p) => ("prep", p.to_json()),
         };
         json!({"backend": self.backend, "kind": k, "spec": s, "fill_a": self.fill_a, "fill_b": self.fill_b,
-               "misalign": self.misalign, "sched_seed": self.sched_seed})
+               "misalign": self.misalign, "slack": self.slack, "sched_seed": self.sched_seed})
     }
     pub fn from_json(v: &Value) -> Case {
         let s = &v["spec"];
@@ -79,6 +80,7 @@ impl Case {
             fill_a: v["fill_a"].as_u64().unwrap(),
             fill_b: v["fill_b"].as_u64().unwrap(),
             misalign: v["misalign"].as_u64().unwrap() as usize,
+            slack: v["slack"].as_u64().unwrap_or(64) as usize,
             sched_seed: v["sched_seed"].as_u64().unwrap(),
         }
     }
@@ -235,15 +237,32 @@ pub fn execute(case: &Case) -> CaseOutcome {
             },
             true,
         ),
+        // MAX clause: a scratch larger than declared (by an amount that need not be a multiple of the
+        // alignment, nor of the thread count) must serve as well
+        (
+            "declared_plus_slack/poison_a",
+            Window {
+                mode: WindowMode::Slack(case.slack),
+                fill_seed: case.fill_a,
+            },
+            false,
+        ),
     ];
     for (label, w, sched) in &modes {
         let (r, rep) = run(case, w, *sched);
         match r {
             Err(p) => {
-                let exact = !matches!(w.mode, WindowMode::Generous);
+                let exact = !matches!(w.mode, WindowMode::Generous | WindowMode::Slack(_));
+                let slack = matches!(w.mode, WindowMode::Slack(_));
                 out.violation = Some((
-                    if exact { "FIT" } else { "CLEAN" }.into(),
-                    if exact { "panic_with_declared_size".to_string() } else { format!("panic_with_poison:{}", panic_class(&p)) },
+                    if exact { "FIT" } else if slack { "MAX" } else { "CLEAN" }.into(),
+                    if exact {
+                        "panic_with_declared_size".to_string()
+                    } else if slack {
+                        "panic_with_larger_scratch".to_string()
+                    } else {
+                        format!("panic_with_poison:{}", panic_class(&p))
+                    },
                     format!(
                         "{} [{label}]: declared {} bytes (high-water mark with a generous window: {} bytes) -> {p}",
                         case.name(),
@@ -347,6 +366,7 @@ pub fn generate(seed: u64, idx: u64, thorough: bool) -> Case {
         fill_a: rng.next() | 1,
         fill_b: rng.next() | 1,
         misalign: 8 * rng.range(1, 7) as usize,
+        slack: *rng.pick(&[8usize, 56, 64, 72, 128, 192, 200, 1000, 4160]),
         sched_seed: rng.next(),
     }
 }
@@ -445,7 +465,7 @@ impl CheckImpl for C12 {
         let covered: Vec<String> = acc.counters.keys().filter(|k| k.starts_with("covered.")).map(|k| k[8..].to_string()).collect();
         json!({
             "distinct_nontrivial": classes,
-            "rule": "One evaluation = one (operation, argument shape, backend) case executed with five scratch windows: generous/zeroed (reference), exactly the op's own *_tmp_bytes answer (zeroed; poisoned; start misaligned by 8..56 bytes and poisoned), generous/poisoned; for the threaded entry points 'exact' is threads x per-thread size and the poisoned runs use a random schedule. Every carve is reported by the arena hook. distinct_nontrivial = distinct (operation, ring degree, ranks, dsize, radix-mismatch flags, key-wider-than-result flag, thread count, backend) classes among admissible cases (a case is admissible when the reference run completes).",
+            "rule": "One evaluation = one (operation, argument shape, backend) case executed with six scratch windows: generous/zeroed (reference), exactly the op's own *_tmp_bytes answer (zeroed; poisoned; start misaligned by 8..56 bytes and poisoned), generous/poisoned, declared+slack/poisoned (MAX clause: a larger scratch must serve as well); for the threaded entry points 'exact' is threads x per-thread size and the poisoned runs use a random schedule. Every carve is reported by the arena hook. distinct_nontrivial = distinct (operation, ring degree, ranks, dsize, radix-mismatch flags, key-wider-than-result flag, thread count, backend) classes among admissible cases (a case is admissible when the reference run completes).",
             "assumptions": [
                 "coverage is the inventory listed under ops_covered, not all ~120 (operation, tmp_bytes) pairs",
                 "shapes rejected by an op's own precondition asserts are skipped (counted under inadmissible.*)",
@@ -474,6 +494,7 @@ pub fn sweep(backend_name: &str, op: &str, count: u64) {
             fill_a: rng.next() | 1,
             fill_b: rng.next() | 1,
             misalign: 8,
+            slack: *rng.pick(&[8usize, 64, 72, 192, 4160]),
             sched_seed: 1,
         };
         let o = execute(&case);
